@@ -169,6 +169,21 @@ func (p *parser) checkedDeclaration() ast.Statement {
 	return stmt
 }
 
+// parses the single statement that is the body of an if, else or loop
+// alias declarations are no statements (checkedDeclaration returns nil for them) and are reported
+func (p *parser) checkedSingleStatement() ast.Statement {
+	start := p.peek()
+	stmt := p.checkedDeclaration()
+	if stmt == nil {
+		p.err(ddperror.SYN_UNEXPECTED_TOKEN, start.Range, "Hier wird eine Anweisung erwartet, eine Alias Deklaration ist keine")
+		return &ast.BadStmt{
+			Tok: *start,
+			Err: p.lastError,
+		}
+	}
+	return stmt
+}
+
 // entry point for the recursive descent parsing
 func (p *parser) declaration() ast.Statement {
 	if p.matchAny(token.DER, token.DIE, token.DAS, token.WIR) { // might indicate a function, variable or struct
